@@ -414,7 +414,8 @@ def run(tier: str, seed: int, replay: str | None = None) -> int:
                                "cli_only": [v for v in _pf(impl["cli"]) if v not in api_all][:4], "api_only": [v for v in _pf(api_all) if v not in impl["cli"]][:4], "case": case})
             continue
         bits = [bool(b) for b in bits]
-        full_ok, pf_ok, ideal_ok, cand = bits[0], bits[1], bits[2], bits[3:]
+        ncand = len(FLAGS) + 2
+        full_ok, pf_ok, ideal_ok, cand, agree = bits[0], bits[1], bits[2], bits[3:3 + ncand], bits[3 + ncand:]
         chk.traces_validated += 1
         cands_all = cand if cands_all is None else [a and b for a, b in zip(cands_all, cand)]
         full_applies = case["kind"] == "single" or (case["kind"] == "multi" and not impl["files"])
@@ -424,7 +425,10 @@ def run(tier: str, seed: int, replay: str | None = None) -> int:
         api_all = [v for a in impl["api"] for v in a]
         info = {"oracle": "all findings" if full_applies else "per-file findings",
                 "cli_only": [v for v in impl["cli"] if v not in api_all][:4], "api_only": [v for v in api_all if v not in impl["cli"]][:4], "case": case}
-        relevant = [FLAGS[j] for j in range(len(FLAGS)) if not cand[1 + j]]
+        # a listed defect explains the disagreement when switching that flag off makes the model's two routes agree
+        relevant = [FLAGS[j] for j in range(len(FLAGS)) if agree[1 + j]] if full_applies else []
+        if not relevant and full_applies and agree[-1]:
+            relevant = [FLAGS[j] for j in range(len(FLAGS)) if not cand[1 + j] and FLAGS[j] in chk.known["known"]]
         if cand[0] and ideal_ok and relevant and pf_ok:
             for f in relevant:
                 chk.known_finding(f, {k: v for k, v in info.items() if k != "case"} | {"cmd": case["cmd"], "targets": [impl["files"], impl["dirs"]], "paths": case["proj"]["paths"]})
